@@ -142,8 +142,9 @@ func completionPlan(res []int, perm []int, mode string) []string {
 }
 
 func runC19(ctx *core.Ctx) {
-	runC19Fanout(ctx)
 	runC19Race(ctx)
+	ctx.Wait()
+	runC19Fanout(ctx)
 }
 
 func runC19Fanout(ctx *core.Ctx) {
